@@ -1806,6 +1806,186 @@ func vfC17ScenPoolRefilled(size int) func() vfC17ScenResult {
 	}
 }
 
+// A pool that is left below its size by something HandleError's own fill() cannot repair - a connection lost while a
+// fill of the same pool is in progress (that fill() returns at the `filling` check), or a refill whose connect fails -
+// is brought back to its size by the queries that keep arriving (Pick on a pool below its size asks for a fill).
+func vfC17ScenPoolReplenished(kind string, size int) func() vfC17ScenResult {
+	return func() vfC17ScenResult {
+		res := vfC17ScenResult{Name: fmt.Sprintf("pool-replenished-%s-size-%d", kind, size)}
+		r, err := vfC17NewRun(1, 2, size, nil)
+		if err != nil {
+			res.Err = err.Error()
+			return res
+		}
+		s := r.sess
+		const ip2 = "10.0.0.2"
+		full := func() bool {
+			m := r.openPerHost()
+			return m["10.0.0.1"] == size && m[ip2] == size
+		}
+		if !vfC17Poll(vfC17DeadlineD(), full) {
+			res.Err = fmt.Sprintf("pools did not fill initially: %v", r.openPerHost())
+			s.Close()
+			return res
+		}
+		victim := func() *vfC17DialRec {
+			ch := s.control.getConn()
+			for _, d := range r.liveNodeConns() {
+				if d.node == ip2 && (ch == nil || ch.conn == nil || d.mem != vfC17MemOf(ch.conn.conn)) {
+					return d
+				}
+			}
+			return nil
+		}
+		// the initial fills are over (a connection lost while one is still in progress is the other scenario)
+		idle := func() bool {
+			if r.busy() {
+				return false
+			}
+			for _, p := range append(r.poolsOf(ip2), r.poolsOf("10.0.0.1")...) {
+				p.mu.RLock()
+				f := p.filling
+				p.mu.RUnlock()
+				if f {
+					return false
+				}
+			}
+			return true
+		}
+		if !vfC17Poll(vfC17DeadlineD(), idle) {
+			res.Err = "the initial fills did not end"
+			s.Close()
+			return res
+		}
+		v1 := victim()
+		if v1 == nil {
+			res.Err = "no pool connection to the second host"
+			s.Close()
+			return res
+		}
+		switch kind {
+		case "refill-fails":
+			// the node refuses the refill's connect, then comes back
+			n2 := r.nodes[1]
+			n2.mu.Lock()
+			n2.Down = true
+			n2.mu.Unlock()
+			before := r.actN()
+			v1.nc.Close()
+			// the refill has failed when the pool of the host is no longer filling and the loss has been processed
+			if !vfC17Poll(vfC17DeadlineD(), func() bool {
+				if r.actN() == before || r.busy() {
+					return false
+				}
+				for _, p := range r.poolsOf(ip2) {
+					p.mu.RLock()
+					f, n := p.filling, len(p.conns)
+					p.mu.RUnlock()
+					if f || n != size-1 {
+						return false
+					}
+				}
+				return true
+			}) {
+				res.Err = fmt.Sprintf("the refill against the refusing node did not end: %v", r.openPerHost())
+				s.Close()
+				return res
+			}
+			n2.mu.Lock()
+			n2.Down = false
+			n2.mu.Unlock()
+		case "loss-during-fill":
+			// the refill's connect is parked in the dialer; a second connection is lost meanwhile
+			parked := make(chan struct{})
+			release := make(chan struct{})
+			var once sync.Once
+			r.mu.Lock()
+			r.onDial = func(ip string) {
+				if ip != ip2 {
+					return
+				}
+				fire := false
+				once.Do(func() { fire = true })
+				if fire {
+					close(parked)
+					<-release
+				}
+			}
+			r.mu.Unlock()
+			v1.nc.Close()
+			select {
+			case <-parked:
+			case <-time.After(vfC17DeadlineD()):
+				res.Err = "the refill did not reach the dialer"
+				close(release)
+				s.Close()
+				return res
+			}
+			v2 := victim()
+			if v2 == nil {
+				res.Err = "no second pool connection to lose"
+				close(release)
+				s.Close()
+				return res
+			}
+			mark := r.actN()
+			v2.nc.Close()
+			// HandleError has removed it (its own fill() found the pool filling)
+			vfC17Poll(vfC17DeadlineD(), func() bool {
+				if r.actN() == mark {
+					return false
+				}
+				for _, p := range r.poolsOf(ip2) {
+					p.mu.RLock()
+					n := len(p.conns)
+					p.mu.RUnlock()
+					if n != size-2 {
+						return false
+					}
+				}
+				return true
+			})
+			close(release)
+		}
+		filling := func() bool {
+			if r.busy() {
+				return true
+			}
+			for _, h := range s.ring.allHosts() {
+				if p, okp := s.pool.getPool(h); okp {
+					p.mu.RLock()
+					f := p.filling
+					p.mu.RUnlock()
+					if f {
+						return true
+					}
+				}
+			}
+			return false
+		}
+		// queries keep arriving
+		ok := res.settle(func() bool {
+			for _, h := range s.ring.allHosts() {
+				if p, okp := s.pool.getPool(h); okp {
+					p.Pick()
+				}
+			}
+			return full()
+		}, r.actN, filling)
+		res.Obs = fmt.Sprintf("open per host after queries kept arriving: %v", r.openPerHost())
+		if !ok && res.Unsure == "" {
+			res.Viol = "pool-not-replenished"
+			res.What = fmt.Sprintf("a pool of size %d left short by %s stayed short although queries kept arriving (no dial, no fill in progress "+
+				"any more): %v", size, kind, r.openPerHost())
+		}
+		if okc, dump := res.within(s.Close, vfC17CloseFinder(s)); !okc && res.Viol == "" {
+			res.Viol = "session-close-hang:" + vfC17HangSig(dump, s)
+			res.What = "Session.Close did not return"
+		}
+		return res
+	}
+}
+
 func TestVfC17Scenarios(t *testing.T) {
 	outPath := os.Getenv("VF_TRACES")
 	if outPath == "" {
@@ -1821,7 +2001,9 @@ func TestVfC17Scenarios(t *testing.T) {
 		vfC17ScenReconnectSetupFails("local-error"), vfC17ScenReconnectSetupFails("local-norows"),
 		vfC17ScenReconnectSetupFails("register-error"), vfC17ScenReconnectSetupFails("filtered"),
 		vfC17ScenPoolRefilled(1), vfC17ScenPoolRefilled(2), vfC17ScenPoolRefilled(3),
-		vfC17ScenEvStopVsFlush, vfC17ScenCloseVsEventFlush, vfC17ScenCloseDuringSlowHandler}
+		vfC17ScenEvStopVsFlush, vfC17ScenCloseVsEventFlush, vfC17ScenCloseDuringSlowHandler,
+		vfC17ScenPoolReplenished("refill-fails", 2), vfC17ScenPoolReplenished("refill-fails", 3),
+		vfC17ScenPoolReplenished("loss-during-fill", 3)}
 	results := make([]vfC17ScenResult, len(fs))
 	var wg sync.WaitGroup
 	for i, f := range fs {
